@@ -15,7 +15,7 @@ import math
 
 from sexp import Sym
 
-from props._chunks_util import comps, rand_comp, valid_dim, setup_dask, blocks_match_chunks
+from props._chunks_util import comps, rand_comp, rand_comp_zeros, valid_dim, setup_dask, blocks_match_chunks
 
 PROP = "C24"
 READY = True
@@ -130,7 +130,8 @@ def case_fn(ctx, inp):
         got = list(map(int, R._calc_lower_dimension_chunks([tuple(a), tuple(b)], 0, 1)))
         ctx.eq("_calc_lower_dimension_chunks", ctx.lean(Sym("lower_dim"), a, b), got)
     elif op == "reshape_rechunk":
-        inchunks = tuple(tuple(c) for c in inp["inchunks"])
+        # reshape() drops zero-length chunks before it calls reshape_rechunk
+        inchunks = tuple(tuple(n for n in c if n) or (0,) for c in inp["inchunks"])
         inshape = tuple(sum(c) for c in inchunks)
         outshape = tuple(inp["outshape"])
         if math.prod(len(c) for c in inchunks) == 1:
@@ -399,6 +400,8 @@ def _shape_chunks(rng, maxd=3, maxn=6, minn=1, zeros=False):
     shape = [rng.randint(minn, maxn) for _ in range(rng.randint(1, maxd))]
     if zeros and rng.random() < 0.08:  # an empty axis
         shape[rng.randrange(len(shape))] = 0
+    if rng.random() < 0.12:  # interior zero-length chunks (what boolean indexing leaves behind)
+        return [rand_comp_zeros(rng, s) for s in shape]
     return [rand_comp(rng, s) for s in shape]
 
 
